@@ -335,33 +335,47 @@ func (x *runner) pushNext() {
 
 func (x *runner) randomOp(g *hx.Rng, growBias bool) string {
 	w := g.Intn(100)
-	pushW := 35
+	iterW := 8
 	if growBias {
-		pushW = 70
+		iterW = 3
 	}
 	switch {
-	case w < pushW:
-		x.next++
-		return fmt.Sprintf("push %d", x.next)
-	case w < pushW+15:
+	case w < 15:
 		return "pop"
-	case w < pushW+19:
+	case w < 19:
 		return "peek"
-	case w < pushW+27:
+	case w < 29:
 		n := len(x.q)
 		h, _, e := kcp.VerifRingState(x.r)
 		toEnd := len(e) - h // a Discard of exactly this many ends at the array end
-		return fmt.Sprintf("discard %d", []int{0, 1, 2, n / 2, max(n-1, 0), n, n + 1, toEnd, max(toEnd-1, 0), toEnd + 1}[g.Intn(10)])
-	case w < pushW+29:
+		var n0 int
+		switch c := g.Intn(100); {
+		case c < 20:
+			n0 = g.Intn(3)
+		case c < 45:
+			n0 = []int{n / 2, max(n-1, 0)}[g.Intn(2)]
+		case c < 55:
+			n0 = n + g.Intn(2) // everything (the Clear shortcut), also n > len
+		default:
+			n0 = max(toEnd-1+g.Intn(4), 0) // around the array end: toEnd-1 .. toEnd+2
+			if n0 >= n && g.Chance(80) {
+				n0 = n / 2
+			}
+		}
+		return fmt.Sprintf("discard %d", n0)
+	case w < 30:
 		return "clear"
-	case w < pushW+33:
+	case w < 34:
 		return []string{"len", "isempty", "isfull", "maxlen"}[g.Intn(4)]
-	case w < pushW+38:
+	case w < 34+iterW:
 		m := 2 + g.Intn(9)
 		return fmt.Sprintf("foreach %d %d %d", 1+g.Intn(3), m, g.Intn(m+1)) // k==m: never stops
-	default:
+	case w < 34+2*iterW:
 		m := 2 + g.Intn(9)
 		return fmt.Sprintf("foreachrev %d %d %d", 1+g.Intn(3), m, g.Intn(m+1))
+	default:
+		x.next++
+		return fmt.Sprintf("push %d", x.next)
 	}
 }
 
@@ -429,7 +443,9 @@ func Run(o *hx.Out, g *hx.Rng, tier string) {
 		x.finish()
 	}
 	if tier == "thorough" {
-		exhaustive(o, 5)
+		// (head offset, fill) at capacity 8; {3,5}: tail == 0; {5,7}: full, the next push grows
+		exhaustive(o, 5, [][2]int{{0, 0}, {6, 3}, {7, 6}, {5, 7}, {3, 5}})
+		exhaustive(o, 6, [][2]int{{7, 6}, {3, 5}})
 	}
 	// growth chains 8 -> 2048+ (cross the doubling and the +10% regimes) from wrapped layouts
 	chains := [][3]int{{8, 5, 2600}}
@@ -455,9 +471,8 @@ func Run(o *hx.Out, g *hx.Rng, tier string) {
 
 // exhaustive enumerates every op sequence of the given depth over a small alphabet from a few
 // wrapped start layouts.
-func exhaustive(o *hx.Out, depth int) {
+func exhaustive(o *hx.Out, depth int, starts [][2]int) {
 	alphabet := []string{"push", "pop", "peek", "discard 1", "discard 2", "discard 99", "clear", "foreach 1 3 1", "foreachrev 1 3 1"}
-	starts := [][2]int{{0, 0}, {6, 3}, {7, 6}, {5, 7}, {3, 5}} // (head offset, fill) at capacity 8; {3,5}: tail == 0
 	total := 1
 	for i := 0; i < depth; i++ {
 		total *= len(alphabet)
